@@ -217,7 +217,33 @@ def seeded(only=None):
     return 2 if bad else 0
 
 
+def refactorings(only=None):
+    """Large behaviour-preserving refactorings written by sub-agents (benign/<id>/): every check of the properties
+    they preserve must stay quiet."""
+    root = os.path.join(VERIF, 'benign')
+    bad = n = 0
+    for bid in sorted(os.listdir(root)):
+        if only and only not in bid:
+            continue
+        if not os.path.exists(os.path.join(root, bid, 'patch.diff')):
+            continue
+        env = dict(os.environ)
+        env.update({'DIR': 'benign', 'MODE': 'quiet'})
+        t0 = time.time()
+        p = subprocess.run([os.path.join(VERIF, 'bin', 'seedcheck'), bid], stdout=subprocess.PIPE, stderr=subprocess.PIPE,
+                           text=True, timeout=7200, env=env)
+        n += 1
+        print('%-42s %s  %5.1fs' % (bid, 'quiet' if p.returncode == 0 else 'ALARM', time.time() - t0))
+        if p.returncode != 0:
+            bad += 1
+            print(p.stdout[-1500:])
+    print('%d refactorings, %d raised an alarm' % (n, bad))
+    return 2 if bad else 0
+
+
 def main(which, seed):
+    if which and which.startswith('refactorings'):
+        return refactorings(which.split(':', 1)[1] if ':' in which else None)
     if which and which.startswith('seeded'):
         return seeded(which.split(':', 1)[1] if ':' in which else None)
     if which == 'known':
